@@ -298,7 +298,7 @@ class Extract(Function):
         self.field = field
 
     def get_special_params_sql(self, ctx: SqlContext) -> str:
-        return "FROM {field}".format(field=self.field.get_sql(ctx))
+        return "FROM {field}".format(field=self.field.get_sql(ctx.copy(with_alias=False)))
 
 
 # Null Functions
